@@ -297,3 +297,69 @@ pub fn will_table(w: &mut World) {
     }
     let _ = Packet::PingReq;
 }
+
+/// One table entry (C19): issue a request of kind `ctx` carrying exactly `prop`.
+pub fn forced_probe(conn: &mut Conn<'_, '_>, ctx: ReqCtx, prop: &Prop) -> Res {
+    let live = conn.is_connected();
+    let snapshot = (conn.session().is_publish_quiescent(), conn.can_publish(QoS::AtLeastOnce));
+    let res = match ctx {
+        ReqCtx::Publish => {
+            let mut spec = with(|w| {
+                let q = w.tape.choose(3) as u8;
+                gen_publish(w, q)
+            });
+            spec.props = vec![prop.clone()];
+            spec.correlate = None;
+            spec.payload_fails = false;
+            let r = do_publish(conn, &spec);
+            with(|w| {
+                w.reqs.last_mut().unwrap().is_probe = true;
+                judge(w, ctx, prop, &r, live)
+            });
+            r
+        }
+        ReqCtx::Subscribe => {
+            let mut spec = with(gen_subscribe);
+            spec.props = vec![prop.clone()];
+            let r = do_subscribe(conn, &spec);
+            with(|w| {
+                w.reqs.last_mut().unwrap().is_probe = true;
+                judge(w, ctx, prop, &r, live)
+            });
+            r
+        }
+        ReqCtx::Unsubscribe => {
+            let mut spec = with(gen_unsubscribe);
+            spec.props = vec![prop.clone()];
+            let r = do_unsubscribe(conn, &spec);
+            with(|w| {
+                w.reqs.last_mut().unwrap().is_probe = true;
+                judge(w, ctx, prop, &r, live)
+            });
+            r
+        }
+        ReqCtx::Disconnect | ReqCtx::Will => {
+            if legal(ReqCtx::Disconnect, prop) == Legal::Open {
+                return Res::OkNone;
+            }
+            let r = do_disconnect(conn, &DiscSpec { reason: Some(0), props: Some(vec![prop.clone()]) });
+            with(|w| {
+                if r == Res::InvalidRequest {
+                    w.disconnect_expected = None;
+                }
+                judge(w, ReqCtx::Disconnect, prop, &r, live)
+            });
+            if r == Res::InvalidRequest && live && !conn.is_connected() {
+                with(|w| w.violate("C19", "refused-disconnect-killed-handle".into(), "a refused disconnect left the handle dead".into()));
+            }
+            r
+        }
+    };
+    if live && conn.is_connected() && res == Res::InvalidRequest && ctx != ReqCtx::Publish {
+        let after = (conn.session().is_publish_quiescent(), conn.can_publish(QoS::AtLeastOnce));
+        if after != snapshot {
+            with(|w| w.violate("C19", "refused-request-changed-state".into(), format!("quiescence/can_publish changed from {:?} to {:?} across a refused request", snapshot, after)));
+        }
+    }
+    res
+}
